@@ -18,6 +18,7 @@ import OFV.Proofs.C05Iop8
 import OFV.Proofs.C05Bksf
 import OFV.Proofs.C05BksfNum
 import OFV.Proofs.C05BksfTwo
+import OFV.Proofs.C05BksfTwo2
 
 namespace OFV.C05
 open OFV OFV.Spec OFV.Model OFV.Model.C05 OFV.Sem OFV.BK OFV.BKT
@@ -658,6 +659,30 @@ theorem bksf_two_body_four_index_sound (tol : Rat) (htol : tol * tol ≤ 1 / 4) 
         then -GV.coeff (applyOp .qubit (mulOp .qubit Apq Ars) [m]) [x] else 0 :=
   twoBody4_sound tol htol E hE p q r s hnd Apq Ars t hA1 hA2 ht hok m x
 
+/-- **`_two_body` with two distinct indices is `± n_p n_q`**: diagonal in the edge-qubit basis, `+1` (when `p = s`,
+i.e. `a†_p a†_q a_q a_p`) resp. `-1` (`a†_p a†_q a_p a_q`) exactly on the basis states where both vertices are occupied
+(occupation = parity of the incident edge qubits) — every graph without loops, every basis state -/
+theorem bksf_two_body_two_index_sound (tol : Rat) (htol : tol * tol ≤ 1 / 4) (E : Model.Bksf.Edges) (hE : NoLoops E)
+    (p q r s : Nat) (hnd : Model.Bksf.nDistinct4 p q r s = 2) (t : Model.Op)
+    (ht : Model.Bksf.twoBody tol E p q r s = some t) (hok : Model.Bksf.twoBody2Ok tol E p q s = true) (m x : Nat) :
+    GV.coeff (applyOp .qubit t [m]) [x]
+      = if m = x then (if p = s then 1 else -1) * (if occV E p m && occV E q m then 1 else 0) else 0 :=
+  twoBody2_sound tol htol E hE p q r s hnd t ht hok m x
+
+/-- **`_two_body` with three distinct indices is the number-excitation `n_z (a†_x a_y + h.c.)`** in edge-operator form:
+with `(x, y, z, phase) = threeIdx p q r s` (the selection the code makes by which two indices coincide) it is
+`phase/2 · (A_xy B_y + B_x A_xy)` on the basis states where the spectator vertex `z` is occupied and `0` on all others -/
+theorem bksf_two_body_three_index_sound (tol : Rat) (htol : tol * tol ≤ 1 / 4) (E : Model.Bksf.Edges) (hE : NoLoops E)
+    (p q r s : Nat) (hnd : Model.Bksf.nDistinct4 p q r s = 3) (hsel : p = r ∨ p = s ∨ q = r ∨ q = s) (A t : Model.Op)
+    (hA : Model.Bksf.edgeA tol E (Model.Bksf.threeIdx p q r s).1 (Model.Bksf.threeIdx p q r s).2.1 = some A)
+    (ht : Model.Bksf.twoBody tol E p q r s = some t) (hok : Model.Bksf.twoBody3Ok tol E p q r s = true) (m x : Nat) :
+    GV.coeff (applyOp .qubit t [m]) [x]
+      = (if occV E (Model.Bksf.threeIdx p q r s).2.2.1 m then Model.Bksf.halfQ else 0)
+        * (Model.Bksf.threeIdx p q r s).2.2.2
+        * (GV.coeff (applyOp .qubit (mulOp .qubit A (Model.Bksf.edgeB tol E (Model.Bksf.threeIdx p q r s).2.1)) [m]) [x]
+          + GV.coeff (applyOp .qubit (mulOp .qubit (Model.Bksf.edgeB tol E (Model.Bksf.threeIdx p q r s).1) A) [m]) [x]) :=
+  twoBody3_sound tol htol E hE p q r s hnd hsel A t hA ht hok m x
+
 /-! ### non-vacuity -/
 
 example : Generated.eqTolerance * Generated.eqTolerance ≤ 1 / 4 := by
@@ -768,6 +793,21 @@ example :
   refine ⟨by decide +kernel, by decide +kernel, by decide +kernel, by decide +kernel, by decide +kernel,
     by decide +kernel, by decide +kernel⟩
 
+/-- hypotheses of `bksf_two_body_two_index_sound` / `bksf_two_body_three_index_sound` on the 4-cycle with a pendant
+vertex: index patterns, exact-regime flags, the needed edge operator, for all four three-index patterns -/
+example :
+    let E : Model.Bksf.Edges := [(0, 1), (0, 3), (1, 2), (2, 3), (3, 4)]
+    Model.Bksf.nDistinct4 1 3 3 1 = 2 ∧ Model.Bksf.twoBody2Ok Generated.eqTolerance E 1 3 1 = true
+    ∧ Model.Bksf.nDistinct4 1 3 1 3 = 2 ∧ Model.Bksf.twoBody2Ok Generated.eqTolerance E 1 3 3 = true
+    ∧ (∀ t ∈ [(3, 0, 3, 1), (3, 0, 1, 3), (0, 3, 3, 1), (0, 3, 1, 3)],
+        Model.Bksf.nDistinct4 t.1 t.2.1 t.2.2.1 t.2.2.2 = 3
+        ∧ Model.Bksf.twoBody3Ok Generated.eqTolerance E t.1 t.2.1 t.2.2.1 t.2.2.2 = true
+        ∧ (Model.Bksf.edgeA Generated.eqTolerance E (Model.Bksf.threeIdx t.1 t.2.1 t.2.2.1 t.2.2.2).1
+            (Model.Bksf.threeIdx t.1 t.2.1 t.2.2.1 t.2.2.2).2.1).isSome = true
+        ∧ (Model.Bksf.twoBody Generated.eqTolerance E t.1 t.2.1 t.2.2.1 t.2.2.2).isSome = true) := by
+  intro E
+  refine ⟨by decide +kernel, by decide +kernel, by decide +kernel, by decide +kernel, by decide +kernel⟩
+
 example : ∀ m ∈ [11, 0, 3, 11, 4], m / 2 < 6 := by decide
 
 /-- the exact-regime hypothesis of `tree_exact` on a concrete operator, `n = 6` (tree ≠ Fenwick there) -/
@@ -781,8 +821,7 @@ example : bkTreeFermionOk Generated.eqTolerance 6
 * Bravyi-Kitaev superfast: the edge matrix, `_one_body`, `_two_body`, the assembled `bravyi_kitaev_fast` and
   `number_operator` are modelled (`Model/C05Bksf.lean`) and compared exactly with the library; proved: the edge
   algebra (`bksf_*_relation`), the edge list is a simple graph, `number_operator`, `_one_body`, and `_two_body` for
-  four distinct indices (the double excitation).  NOT proved: the image formulas of `_two_body` for 3 / 2 distinct
-  indices, that the selection of tensor entries of the main loop
+  four (double excitation), three (number-excitation) and two (`± n_p n_q`) distinct indices.  NOT proved: that the selection of tensor entries of the main loop
   adds up to the edge-algebra image of the whole Hamiltonian (false in general for the pinned source: known findings
   F05-bksf-complex-coefficients, F05-bksf-missing-edge), the fermionic
   identities expressing a†a-monomials by Majorana edge operators, `vacuum_operator` (networkx cycle basis; no Model),
